@@ -560,15 +560,11 @@ def fuzz_campaign(prop, mode, tcfg, seed, work, repdir, violations, notes, agg):
                     agg[d][k] = agg[d].get(k, 0) + v
         arts = [f for f in os.listdir(adir) if f.startswith("crash-") or f.startswith("leak-")]
         for a in arts[:2]:
-            # the target wrote the decoded text next to the artifact
-            txt = os.path.join(adir, a + ".case")
-            src = txt if os.path.exists(txt) else None
-            if not src:
-                last = os.path.join(work, "fz-last-%d.case" % j)
-                src = last if os.path.exists(last) else None
-            if not src:
-                notes.append("libFuzzer job %d left artifact %s without a decoded case" % (j, a))
-                continue
+            kind = str(j % 10) if tcfg.get("fuzz_per_kind", True) else "-1"
+            dec = subprocess.run([seqbin, "decode", os.path.join(adir, a), kind], capture_output=True, text=True)
+            src = os.path.join(adir, a + ".case")
+            with open(src, "w") as fh:
+                fh.write(dec.stdout)
             text = open(src).read()
             r0 = run_replay(seqbin, prop, mode, src)
             name = "%s-fuzz-seed%d-j%d.case" % (prop, seed, j)
